@@ -241,6 +241,10 @@ def h_place(env, angles=(90, 0, 0), tsize=4, two=False):
     c = T // 2
     srcv = [c + sum(R[j][i] * (a_[j] - c) for j in range(3)) for i in range(3)]
     src_in = env.and_(*[env.and_(env.ge(s, 0), env.lt(s, T)) for s in srcv])
+    # template voxels on the template's faces can fall outside the interpolation domain by rounding (same exclusion as for
+    # rotate): the claim is about template voxels at least one voxel away from every face, and about voxels outside the box
+    interior = env.and_(*[env.and_(env.ge(s, 1), env.le(s, T - 2)) for s in list(srcv) + list(a_)])
+    env.assume(env.or_(interior, env.not_(inbox)))
     if env.mode == "sym":
         set_ = env.and_(inbox, src_in, env.gt(tmpl.at(srcv), 0.1))
         env.check("stamped_voxel_has_colour", env.implies(set_, env.eq(val, col)))
